@@ -461,6 +461,41 @@ fn create_inbound_scmp_error(err: PacketPolicyError) -> scmp::model::ScmpMessage
     }
 }
 
+/// Verification hooks (cargo feature `verif-hooks`, default off, add-only): access to the private
+/// ingress policy and to the SCMP reply constructors for the /verif correspondence harness.
+#[cfg(feature = "verif-hooks")]
+pub mod verif {
+    use sciparse::payload::scmp::model::ScmpMessage;
+
+    pub use crate::tunnel_gateway::packet_policy::{PacketPolicyError, inbound_datagram_check};
+
+    /// Size of the gateway's receive/send buffers.
+    pub const PACKET_BUF_SIZE: usize = super::PACKET_BUF_SIZE;
+
+    /// See [`super::create_inbound_scmp_error`].
+    pub fn create_inbound_scmp_error(err: PacketPolicyError) -> ScmpMessage {
+        super::create_inbound_scmp_error(err)
+    }
+}
+
+#[cfg(feature = "verif-hooks")]
+impl<A, D, O: ?Sized> TunnelGateway<A, D, O>
+where
+    D: Dispatcher + 'static,
+    A: SnapTunAuthorization + 'static,
+    O: TunnelGatewayObserver<A::SessionData> + 'static,
+{
+    /// See `create_scmp_error`.
+    pub fn verif_create_scmp_error(
+        err: PacketPolicyError,
+        local_addr: ScionHostAddr,
+        dst_addr: ScionAddr,
+        target_buf: &mut Packet,
+    ) -> Result<usize, EncodeError> {
+        Self::create_scmp_error(err, local_addr, dst_addr, target_buf)
+    }
+}
+
 #[cfg(test)]
 mod tests {
     use std::{
